@@ -21,7 +21,7 @@ Qed.
 (** the precondition: (repaired source) no neighbour that holds the corner leaving the column also
     holds the opposite corner *)
 Definition split_pre (g : geo) (colname nodename : str) : Prop :=
-  fx_split (fx g) = true /\ fx_nbr (fx g) = false /\
+  fx_split (fx g) = true /\
   forall c i0, cget g colname = Some c -> length (cns g c) = 4%nat -> index_of nodename (map (nn g) (cns g c)) 0 = Some i0 ->
     forall d, In d (cnb g c) -> In (corner (cns g c) i0 3) (cns g d) -> ~ In (corner (cns g c) i0 1) (cns g d).
 
@@ -31,7 +31,7 @@ Proof. intros H Hx. exact (find_none f l H x Hx). Qed.
 Theorem split_column_inv g colname nodename g' : Inv g -> split_pre g colname nodename ->
   split_column g colname nodename = Ok g' -> Inv g'.
 Proof.
-  intros I [Fs [Fn Pre]] H. unfold split_column in H.
+  intros I [Fs Pre] H. unfold split_column in H.
   destruct (cget g colname) as [c|] eqn:Ec; [|inversion H; subst; exact I].
   destruct (cns g c) as [|m0 [|m1 [|m2 [|m3 [|m4 rest]]]]] eqn:Ecns; try (inversion H; subst; exact I).
   destruct (index_of nodename (map (nn g) [m0; m1; m2; m3]) 0) as [i0|] eqn:Ei; [|inversion H; subst; exact I].
@@ -159,15 +159,24 @@ Proof.
     pose proof (DL_aget_name str_eqb str_spec (cn g) (clist g) (cdict g) (k1 g k) (s1_c g P1) A1) as X.
     rewrite Kb in X. unfold cget in Fresh. congruence. }
   assert (Eklk : klist gk = klist g) by (rewrite Egk; gsg; rewrite Eg9, Eg8, Eg7, Eg6, Eg5, Eg4, Eg3, Eg2; reflexivity).
-  revert H. unfold add_connection_obj. rewrite Ekk, Ekd, Ek0k, Ek1k, Efxk, Fn. cbv zeta.
-  match goal with |- context [fx_split (fx ?G)] => replace (fx G) with (fx g) by (symmetry; exact Efxk) end. rewrite Fs.
-  assert (Ecck : ccon gk = MC) by (rewrite Egk; gsg; rewrite Eg9, Eg8, Eg7, Eg6, Eg5, Eg4, Eg3; reflexivity).
   assert (Ecbk : cnbr gk = MN) by (rewrite Egk; gsg; rewrite Eg9, Eg8, Eg7, Eg6, Eg5, Eg4; reflexivity).
+  (* the neighbour sets at the end: in either source variant the two halves have been added to each other once or twice *)
+  assert (Pack : exists NBF, (forall x, fget [] NBF x = fget [] (nbr2 MN c c2) x) /\
+                   setup_names (rekey_connections (set_cnbr (add_connection_core gk knew) NBF)) = Ok g').
+  { revert H. rewrite add_connection_obj_eq by (rewrite Ekk; exact Ekd). rewrite Ek0k, Ek1k, Efxk.
+    destruct (fx_nbr (fx g)).
+    - match goal with |- context [fx_split (fx ?G)] => replace (fx G) with (fx g) by (symmetry; exact Efxk) end. rewrite Fs. intro H.
+      exists (nbr2 (nbr2 MN c c2) c c2). split; [intro x; apply nbr2_idem; exact Ncc2|].
+      rewrite <- Ecbk. exact H.
+    - match goal with |- context [fx_split (fx ?G)] => replace (fx G) with (fx g) by (symmetry; exact Efxk) end. rewrite Fs. intro H.
+      exists (nbr2 MN c c2). split; [reflexivity|]. rewrite <- Ecbk. exact H. }
+  clear H. destruct Pack as [NBF [ENBF H]]. revert H. unfold add_connection_core. rewrite Ekk, Ek0k, Ek1k. cbv zeta.
+  assert (Ecck : ccon gk = MC) by (rewrite Egk; gsg; rewrite Eg9, Eg8, Eg7, Eg6, Eg5, Eg4, Eg3; reflexivity).
   assert (Eknk : knode gk = fset (knode g1) knew None) by (rewrite Egk; reflexivity).
   assert (Ek0kk : kc0 gk = fset K0 knew c) by (rewrite Egk; reflexivity).
   assert (Ek1kk : kc1 gk = fset K1 knew c2) by (rewrite Egk; reflexivity).
   assert (Ecnodek : cnode gk = fset (cnode g1) c Lc) by (rewrite Egk; gsg; rewrite Eg9, Eg8, Eg7, Eg6, Eg5; gsg; rewrite Eg4, Eg3, Eg2; reflexivity).
-  unfold rekey_connections, nbr_add, ccon_add, cks, cnb, kkey, k0, k1, cn. gsg. rewrite Eklk, Ekdk, Ecck, Ecbk, Eknk, Ek0kk, Ek1kk.
+  unfold rekey_connections, nbr_add, ccon_add, cks, cnb, kkey, k0, k1, cn. gsg. rewrite Eklk, Ekdk, Ecck, Eknk, Ek0kk, Ek1kk.
   match goal with |- context [connection_nodes ?G c c2] => set (CN := connection_nodes G c c2) in * end.
   match goal with |- setup_names ?G = _ -> _ => remember G as gF eqn:EgF end. intro H.
   (* the fields of the state just before the last three updates, then of the final state *)
@@ -199,7 +208,7 @@ Proof.
   assert (A_cks : forall x, cks gF x = fget [] (fset (fset MC c (sadd (fget [] MC c) knew)) c2 (sadd (fget [] (fset MC c (sadd (fget [] MC c) knew)) c2) knew)) x).
   { intro x. unfold cks. rewrite EgF. reflexivity. }
   assert (A_cnb : forall x, cnb gF x = fget [] (fset (fset MN c (sadd (fget [] MN c) c2)) c2 (sadd (fget [] (fset MN c (sadd (fget [] MN c) c2)) c2) c)) x).
-  { intro x. unfold cnb. rewrite EgF. reflexivity. }
+  { intro x. unfold cnb. rewrite EgF. gsg. exact (ENBF x). }
   assert (A_kdict : kdict gF = fold_left (fun acc k => aset key2_eqb acc (kkey gF k) k) (klist gF) []).
   { rewrite A_klist. unfold kkey, k0, k1, cn. rewrite EgF. gsg. rewrite Ek0kk, Ek1kk. reflexivity. }
   assert (A_lay : llist gF = llist g /\ ldict gF = ldict g /\ lname gF = lname g /\ lbot gF = lbot g /\ wlist gF = wlist g /\ wdict gF = wdict g /\ wname gF = wname g).
